@@ -164,6 +164,43 @@ def run(ctx):
     if not preds:
         r4.violate("C01|R4|no-predicate", "no containment predicate (a bool function comparing path segments with '..') exists in rws: request paths are concatenated to the working directory unchecked")
 
+    # R5: the body of the predicate keeps a sound depth (A12, analysis/segments.py)
+    r5 = chk.rule("R5-predicate-keeps-a-sound-depth", "evaluated once per segment class ('..', '.', '', name): the predicate's depth never exceeds the real depth (name: at most +1; '.', '': no growth; '..': -1 and only where depth >= 1 is established, at depth 0 it answers true), it starts at 0, no segment ends the walk with false, and the walked text is the predicate's argument", floor=6)
+    from .. import segments
+    for fn, seps in preds:
+        res, note = segments.verdicts(fn)
+        if res is None:
+            r5.note("%s: %s - the body is not decided by this rule (anchor R4 only)" % (fn.def_, note))
+            chk.undecided_extra = getattr(chk, "undecided_extra", []) + ["the string logic of %s (not a segment walk with a depth)" % fn.def_]
+            r5.floor = 0        # nothing of this form to count: the rule is silent, not vacuously satisfied (see the note)
+            continue
+        sh = segments.find_shape(fn)
+        du_p = du_of(fn)
+        def _mentions_param(v, depth=0):
+            if depth > 12 or not isinstance(v, tuple):
+                return False
+            if v and v[0] in ("place", "ref") and isinstance(v[1], tuple) and v[1] and v[1][0] == 1:
+                return True
+            if v and v[0] in ("place", "ref") and isinstance(v[1], tuple) and v[1] and isinstance(v[1][0], int):
+                w = du_p.val_place((v[1][0], ()))
+                if w != v and w[0] != "place":
+                    return _mentions_param(w, depth + 1)
+                return False
+            return any(_mentions_param(x, depth + 1) for x in v[1:] if isinstance(x, tuple)) or any(_mentions_param(y, depth + 1) for x in v[1:] if isinstance(x, tuple) for y in x if isinstance(y, tuple))
+        okp = _mentions_param(sh.split_recv)
+        r5.instance({"predicate": fn.def_, "clause": "the split text derives from the argument", "depth": note}, okp)
+        if not okp:
+            r5.violate("C01|R5|%s|not-the-argument" % fn.def_, "%s does not walk the segments of its argument" % fn.def_, fn.file, fn.span["line"], fn.def_)
+        seen_keys = set()
+        for cls, ok, why, line in res:
+            r5.instance({"predicate": fn.def_, "segment_class": cls, "path_outcome": why, "line": line}, ok)
+            if not ok:
+                key = "C01|R5|%s|%s" % (fn.def_, cls)
+                if key in seen_keys:
+                    continue
+                seen_keys.add(key)
+                r5.violate(key, "%s, segment %r: %s" % (fn.def_, cls, why), fn.file, line, fn.def_)
+
     # sanitised call sites: dominated by the pass (false) edge of a predicate call whose argument is an ancestor of the flowing path
     seen_all = G.reachable(roots)
     local_all = [n for n in seen_all if n in F.fns]
@@ -339,5 +376,5 @@ def run(ctx):
     chk.assumptions += ["taint is flow-insensitive and over-approximate (any value computed from a request_uri read, through any call, is request-derived)",
                         "a call site counts as sanitised when the predicate's pass edge dominates it and the checked value is an ancestor of one of its arguments",
                         "symbolic links placed inside the served directory are followed after the check, as the property allows"]
-    chk.undecided = ["that the predicate's string logic is complete for every spelling (R4 is an anchor); percent-encoded dots are not decoded on the path by this code base"]
+    chk.undecided = ["percent-encoded dots are not decoded on the path by this code base (R2b keeps decoders out of the flow after the check); that no other spelling than '..' climbs on the target platform"] + getattr(chk, "undecided_extra", [])
     return chk.finish()
